@@ -429,10 +429,16 @@ CmpStr(c) == IF c = NoCmp THEN "" ELSE c.f \o (IF c.desc THEN ":desc" ELSE ":asc
 VARIABLES prog, inp, sk
 vars == <<prog, inp, sk>>
 
-Init == /\ prog = <<>>
+\* Besides the empty program, exploration starts from a few two-operator prefixes
+\* (which may be extended by one more operator whatever MaxOps is) so that rules
+\* needing three operators are reached exhaustively.
+StartProgs == { <<>>,
+                <<ForkOp(<<SortOp("a", FALSE, FALSE, FALSE)>>, <<SortOp("a", FALSE, FALSE, FALSE)>>), [k |-> "merge", f |-> "a", desc |-> FALSE]>>,
+                <<ForkOp(<<W("b<2"), SortOp("a", FALSE, FALSE, FALSE)>>, <<SortOp("a", FALSE, FALSE, FALSE)>>), [k |-> "merge", f |-> "a", desc |-> FALSE]>> }
+Init == /\ prog \in StartProgs
         /\ inp \in InputsOf
         /\ sk \in SortKeysOf(inp)
-Next == /\ Len(prog) < MaxOps
+Next == /\ (Len(prog) < MaxOps \/ prog \in (StartProgs \ {<<>>}))
         /\ \E op \in NextOps(prog) : prog' = Append(prog, op)
         /\ UNCHANGED <<inp, sk>>
 Spec == Init /\ [][Next]_vars
